@@ -11,14 +11,30 @@ import util
 from framework import pmap
 
 ID = 'C01'
-LEAN_MODULES = ['Pfst.Props.C01', 'Pfst.Props.C01b']
-LEAN_DEPS = ['Pfst.Edit', 'Pfst.EditLemmas', 'Pfst.Sep', 'Pfst.SepLemmas', 'Pfst.Drv.C01b']
+LEAN_MODULES = ['Pfst.Props.C01', 'Pfst.Props.C01b', 'Pfst.Props.C01c']
+LEAN_DEPS = ['Pfst.Edit', 'Pfst.EditLemmas', 'Pfst.Sep', 'Pfst.SepLemmas', 'Pfst.Drv.C01b', 'Pfst.CanDel', 'Pfst.Gen.CanDelAll']
 THEOREMS = ['Pfst.C01.text_before', 'Pfst.C01.text_after', 'Pfst.C01.text_new', 'Pfst.C01.replace_wf', 'Pfst.C01.steps_wf',
             'Pfst.C01.refused_identity']
 # separator / delimiter primitives (`_trail_sep`, `_maybe_ins_sep`, `_fix_Tuple`): lean/Pfst/Props/C01b.lean, harness/c01b.py
 THEOREMS += ['Pfst.C01b.target_iff', 'Pfst.C01b.trailSep_spec', 'Pfst.C01b.trailSep_none', 'Pfst.C01b.trailSep_del_local',
              'Pfst.C01b.maybeInsSep_post', 'Pfst.C01b.maybeInsSep_local', 'Pfst.C01b.fixTuple_singleton',
              'Pfst.C01b.fixTuple_delimited', 'Pfst.C01b.fixTuple_delimits_partial', 'Pfst.C01b.fixTuple_empty']
+# "delete all elements" decision of statement-like list fields (`_can_del_all`): lean/Pfst/CanDel.lean, Props/C01c.lean, harness/c01c.py
+THEOREMS += ['Pfst.C01c.canDelAll_iff_valid', 'Pfst.C01c.canDelAll_raw', 'Pfst.C01c.valid_preserved', 'Pfst.C01c.table_matches_model',
+             'Pfst.C01c.table_grammar_agrees', 'Pfst.C01c.table_rows_wellformed', 'Pfst.C01c.table_sound_complete']
+
+
+def extract(ctx):
+    """regenerate lean/Pfst/Gen/CanDelAll.lean: the real `_can_del_all` on real nodes + CPython's verdict on the emptied statement"""
+    import c01c
+    import framework
+    rows = c01c.table()
+    framework.write_if_changed(framework.LEAN / 'Pfst' / 'Gen' / 'CanDelAll.lean', c01c.lean_text(rows))
+    ctx.notes['can_del_all_rows'] = len(rows)
+    ctx.notes['can_del_all_rows_where_code_and_cpython_disagree'] = [f"{r['kind']}.{r['field']} h={r['handlers']} e={r['orelse']} f={r['finalbody']}"
+                                                                     for r in rows if r['canNorm'] != r['parsesAfter']]
+
+
 RULE = ('a FIXED corpus of programs (hand-written snippets covering every node type + generated programs + layout mutators; '
         'independent of VERIF_SEED so that the unchanged tree is triaged once) is edited by seed-determined histories of '
         'structured edits: replace / attribute assignment / remove / cut / del item / insert / append / put_slice / view slice '
@@ -36,7 +52,13 @@ RULE = ('a FIXED corpus of programs (hand-written snippets covering every node t
         'adversarial sources (names containing keywords as substrings, blanks and continuations around dots and `as`, '
         'multi-byte text) is set to every value of a small alphabet; same CPython judge. distinct = distinct (program, step) or product case; '
         'non-trivial = the edit succeeded and changed the source')
-TRUSTED = ['modelled (C01b, Pfst/Sep.lean, tied by harness/c01b.py): FST._trail_sep, _maybe_ins_sep, _is_delimited_seq, '
+TRUSTED = ['modelled (C01c, Pfst/CanDel.lean, tied by extraction harness/c01c.py -> Gen/CanDelAll.lean on every run): slice_stmtlike._can_del_all, '
+           'the decision whether a slice edit may remove every element of body / handlers / orelse / finalbody / cases, with the block '
+           'grammar it protects; proved for every shape: under normalisation it allows the deletion iff the statement stays valid, '
+           'validity is kept by allowed steps, nothing is refused without normalisation; the table theorems (decide over the '
+           'regenerated rows) tie the model to the real function and the grammar model to CPython. Assumed: the decision reads only '
+           'the node kind and which optional lists are non-empty (rows with one and with two handlers are extracted)',
+           'modelled (C01b, Pfst/Sep.lean, tied by harness/c01b.py): FST._trail_sep, _maybe_ins_sep, _is_delimited_seq, '
            '_maybe_add_singleton_comma, _fix_Tuple / _fix_undelimited_seq / _delimit_node (source effect; tree decisions '
            '"enclosed by parents / unparenthesised NamedExpr" and element pars() are inputs), _fix_joined_alnums (\\w for '
            'non-ASCII characters is an input from Python re), the per-line rewrite of _maybe_add_line_continuations; proved: '
